@@ -426,7 +426,7 @@ def pred_matcher(name_rx, arg_rxs=(), positive=True):
     def m(rel, a, b):
         if not (isinstance(rel, tuple) and rel[0] == "pred"):
             return None
-        if not rn.search(rel[1]):
+        if not (rn.search(rel[1]) or rn.search(short(rel[1]))):
             return None
         args = a
         for i, r in enumerate(ras):
@@ -476,3 +476,101 @@ def is_derived(body):
             return True
         break
     return False
+
+
+# ---------------------------------------------------------------------------
+# loops and variant edges
+
+def loop_each_checked(body, next_pred, guard_fn, oc=None):
+    """R-CHK loop form.  For every call c with next_pred(c) (an `Iterator::next`-like
+    producer) whose result is switched on: from the `Some` edge no path leads back to
+    the producer or to a success return without crossing an edge on which the guard
+    literal is TRUE (guard_fn(body, sym, bb) -> edges).  Returns list of
+    (call, ok, detail)."""
+    oc = oc or outcome(body)
+    sym = oc.sym
+    true_edges = set()
+    for bi, blk in enumerate(body.blocks):
+        if blk["term"]["t"] == "switch" and not blk.get("cleanup"):
+            e = guard_fn(body, sym, bi)
+            if e:
+                true_edges.update(e)
+    out = []
+    for c in body.calls():
+        if not c.is_static or not next_pred(c) or c.dest is None or c.dest["p"]:
+            continue
+        d = c.dest["l"]
+        sws = switch_on_locals(body, {d})
+        if not sws:
+            out.append((c, False, "result of the producer is never matched on"))
+            continue
+        for sw in sws:
+            some_t = None
+            for v, tb in body.switch_edges(sw):
+                if v == 1:
+                    some_t = tb
+            if some_t is None:
+                out.append((c, False, "no Some edge"))
+                continue
+            reach = body.reachable(some_t, removed_blocks=oc.fail_blocks, removed_edges=true_edges)
+            bad = []
+            if c.bb in reach:
+                bad.append("next iteration reachable without the check")
+            rets = [r for r in oc.returns() if r in reach]
+            if rets:
+                bad.append("success return reachable without the check")
+            out.append((c, not bad, bad or "element checked on every continuing path (%d guard edge(s))" % len(true_edges)))
+    return out
+
+
+def variant_switches(body, sym, place_rx):
+    """Switch blocks on discriminant(X) where render(X) matches place_rx."""
+    rx = re.compile(place_rx)
+    out = []
+    for bi, blk in enumerate(body.blocks):
+        t = blk["term"]
+        if t["t"] != "switch" or blk.get("cleanup"):
+            continue
+        d = strip(sym.operand(t["discr"]))
+        if d[0] == "discr" and rx.search(render(strip_deep(d[1]))):
+            out.append(bi)
+    return out
+
+
+def variant_edge_fails(body, place_rx, value, oc=None):
+    """The edge for discriminant `value` of a match on `place_rx` cannot reach a success
+    return.  -> (found, ok, detail)"""
+    oc = oc or outcome(body)
+    sws = variant_switches(body, oc.sym, place_rx)
+    if not sws:
+        return (False, False, "no match on %s in %s" % (place_rx, body.name))
+    reach = oc.success_reach()
+    bad = []
+    for sw in sws:
+        edges = body.switch_edges(sw)
+        tgt = None
+        for v, tb in edges:
+            if v == value:
+                tgt = tb
+        if tgt is None:
+            tgt = body.term(sw)["otherwise"]
+        if tgt in reach:
+            bad.append("bb%d: variant %s edge → bb%d reaches a success return" % (sw, value, tgt))
+    return (True, not bad, bad or None)
+
+
+def success_values(body, oc=None):
+    """Terms assigned to the return place in non-failure blocks: [(bb, stmt idx|'term', term)]."""
+    oc = oc or outcome(body)
+    out = []
+    for bi in sorted(oc.success_assign_blocks):
+        blk = body.blocks[bi]
+        for si, st in enumerate(blk["stmts"]):
+            if st["s"] == "assign" and not st["pl"]["p"] and st["pl"]["l"] in oc.carriers:
+                t = strip_deep(oc.sym.rvalue(st["rv"]))
+                if not oc._is_fail_term(t) and not (t[0] == "var" and t[2] in oc.carriers):
+                    out.append((bi, si, t))
+        t = blk["term"]
+        if t["t"] == "call" and not t["dest"]["p"] and t["dest"]["l"] in oc.carriers:
+            out.append((bi, "term", strip_deep(oc.sym.call(t, bi))))
+    return out
